@@ -83,6 +83,8 @@ def run(ctx):
     check_sweep_termination(ctx)
     check_region_partition(ctx)
     check_fg_datavector(ctx)
+    check_carried_messages(ctx)
+    check_reiterable_sets(ctx)
     ctx.floor('returned-table constructions', n_ret, 2)
     check_gbp_sets(ctx)
     check_call_local_caches(ctx, [gbp, lbp, cm, repo.nfunc(RG, 'RegionGraph.hazan_peng_shashua')])
@@ -182,6 +184,90 @@ def check_fg_datavector(ctx):
               'normalised over `%s` and expanded to the full domain afterwards WITHOUT the weight |covered| / |full|: every attribute no clique '
               'covers multiplies the mass by its size' % normalised_on[:50] if (not full_before and after) else 'weight and normalisation do not match'),
            construct='mass of FactorGraph.datavector')
+
+
+def check_carried_messages(ctx):
+    """loopy BP keeps its messages on the object between calls (`mu_n, mu_f = self.messages`).  The half that a sweep READS before it writes
+    it is the state that carries the sweeps already done; re-initialising it at the start of a call throws those sweeps away (k calls of s
+    sweeps are then worth s sweeps, and a tree deeper than s is never exact).  The half a sweep writes first may be reset freely."""
+    fi = ctx.repo.nfunc(FG, 'FactorGraph.loopy_belief_propagation')
+    ctx.analysed(fi)
+    unpack = [s_ for s_ in fi.body if isinstance(s_, ast.Assign) and U(s_.value) == 'self.messages' and isinstance(s_.targets[0], ast.Tuple)]
+    sweeps = [s_ for s_ in fi.body if isinstance(s_, (ast.For, ast.While)) and any(isinstance(x, ast.For) for b in s_.body for x in ast.walk(b))]
+    if len(unpack) != 1 or not sweeps:
+        raise AnalysisError('loopy_belief_propagation: message state / sweep loop not found')
+    names = [U(e) for e in unpack[0].targets[0].elts]
+    sweep = sweeps[0]
+
+    def first_access(X):
+        # statements of one sweep in program order; the first one that touches X decides
+        def stmts_in_order(body):
+            for st in body:
+                if isinstance(st, (ast.For, ast.While, ast.If, ast.With)):
+                    # the header first (iterables / tests), then the body
+                    hdr = st.iter if isinstance(st, ast.For) else getattr(st, 'test', None)
+                    if hdr is not None:
+                        yield ('expr', hdr)
+                    for x in stmts_in_order(st.body):
+                        yield x
+                    for x in stmts_in_order(getattr(st, 'orelse', [])):
+                        yield x
+                else:
+                    yield ('stmt', st)
+        for kind, st in stmts_in_order(sweep.body):
+            reads = [n for n in ast.walk(st if kind == 'expr' else (st.value if isinstance(st, (ast.Assign, ast.AugAssign, ast.Expr)) and st.value is not None else st))
+                     if isinstance(n, ast.Name) and n.id == X and isinstance(n.ctx, ast.Load)]
+            if kind == 'stmt' and isinstance(st, ast.AugAssign) and any(isinstance(n, ast.Name) and n.id == X for n in ast.walk(st.target)):
+                reads = reads or [st]
+            if reads:
+                return 'read'
+            if kind == 'stmt' and isinstance(st, ast.Assign) and any(isinstance(n, ast.Name) and n.id == X for t in st.targets for n in ast.walk(t)):
+                return 'write'
+        return None
+    i0, i1 = fi.body.index(unpack[0]), fi.body.index(sweep)
+    n = 0
+    for X in names:
+        acc = first_access(X)
+        resets = [n_ for s_ in fi.body[i0 + 1:i1] for n_ in ast.walk(s_) if isinstance(n_, ast.Assign) and any(U(t) == X for t in n_.targets)]
+        n += 1
+        if acc == 'read':
+            ctx.ob('carried-messages', fi, resets[0] if resets else unpack[0], not resets,
+                   '`%s` is read by a sweep before it is written: it carries the sweeps of earlier calls and %s'
+                   % (X, 'is taken from self.messages unchanged' if not resets else 'is re-initialised by `%s` at every call, which discards them' % U(resets[0])[:60]),
+                   construct='message state %s' % X)
+        elif acc == 'write':
+            ctx.ob('carried-messages', fi, unpack[0], True, '`%s` is written by a sweep before it is read: resetting it changes nothing' % X, construct='message state %s' % X)
+        else:
+            raise AnalysisError('loopy_belief_propagation: `%s` is not used by the sweep' % X)
+    ctx.floor('message containers of loopy BP', n, 2)
+
+
+def check_reiterable_sets(ctx):
+    """the message sets N, D, B of the region graph are walked once per sweep: what is stored in them must be re-iterable (a list / set / tuple),
+    not a generator (or map / filter / zip object), which is empty from the second sweep on"""
+    fi = ctx.repo.nfunc(RG, 'RegionGraph.build_graph')
+    ctx.analysed(fi)
+    from ..normalise import Defs, expand
+    n = 0
+    for st in ast.walk(fi.node):
+        if isinstance(st, ast.Assign) and len(st.targets) == 1 and isinstance(st.targets[0], ast.Subscript) and isinstance(st.targets[0].value, ast.Name) \
+                and st.targets[0].value.id in ('N', 'D', 'B'):
+            n += 1
+            v = st.value
+            # look through a local / an inlined helper result
+            blk = getattr(st, '_parent', None)
+            seen_ = 0
+            while isinstance(v, ast.Name) and seen_ < 4:
+                cands = [a_ for a_ in ast.walk(fi.node) if isinstance(a_, ast.Assign) and len(a_.targets) == 1 and U(a_.targets[0]) == v.id]
+                if len(cands) != 1:
+                    break
+                v, seen_ = cands[0].value, seen_ + 1
+            one_shot = isinstance(v, ast.GeneratorExp) or (isinstance(v, ast.Call) and isinstance(v.func, ast.Name) and v.func.id in ('map', 'filter', 'zip', 'iter', 'reversed'))
+            ctx.ob('gbp-message-sets', fi, st, not one_shot,
+                   'the message set `%s` is iterated in every sweep%s' % (U(st.targets[0])[:30], '' if not one_shot else
+                   '; it is stored as a one-shot iterable (`%s`), which is exhausted by the first sweep: later sweeps see an empty set and GBP converges '
+                   'to a wrong fixed point' % U(v)[:50]), construct='re-iterable message set ' + U(st.targets[0])[:30])
+    ctx.floor('message-set stores in build_graph', n, 3)
 
 
 def check_region_partition(ctx):
